@@ -3,6 +3,7 @@ package sim
 import (
 	"bytes"
 	"fmt"
+	"time"
 )
 
 // C01 - DATA body reaches the backend byte-exact after dot-unstuffing,
@@ -141,6 +142,17 @@ func genC01(t *Tape, tier string) *Scenario {
 			Step{Kind: kData, Data: []byte("DATA\r\n"), Wait: 1},
 			Step{Kind: kBody, Data: stream, Need: 354, Segs: drawSegs(t, len(stream), special), Gaps: drawGaps(t), Wait: -1},
 		)
+		if len(stream) > 6 && t.Chance(1, 12) {
+			// a client that takes a minute inside the message, against a server whose
+			// WriteTimeout is seconds: only ReadTimeout (none, or ten minutes) governs
+			// how long the server waits for input
+			sc.Srv.WriteTO = 5 * time.Second
+			b := &steps[len(steps)-1]
+			b.Segs = []int{1 + t.Intn(len(stream)-1), len(stream)}
+			b.Gaps = []Dur{0, time.Minute}
+			steps[len(steps)-4].Pre = 20 * time.Second
+			sc.Strata = []string{"pause-longer-than-WriteTimeout"}
+		}
 		cp.Data = append(cp.Data, DataPlan{ReadSizes: drawReadSizes(t), ParkReads: drawParks(t)})
 	}
 	steps = append(steps, Step{Kind: kQuit, Data: []byte("QUIT\r\n"), Wait: 1})
@@ -188,6 +200,9 @@ func checkC01(sc *Scenario, h *History) []Violation {
 
 func classifyC01(sc *Scenario, h *History, st *Stats) string {
 	fp := ""
+	if sc.Srv.WriteTO == 5*time.Second {
+		st.Faults["client_pauses_longer_than_WriteTimeout_inside_message"]++
+	}
 	for i, s := range sc.Conns[0].Steps {
 		if s.Kind != kBody || h.Conns[0].StepOff[i] < 0 {
 			continue
@@ -261,7 +276,7 @@ func init() {
 		Real:        []string{"smtp.Server.Serve/handleConn", "smtp.Conn command loop", "dataReader", "lineLimitReader", "net/textproto.Reader", "bufio.Reader"},
 		Stub:        []string{"net.Listener (SimListener)", "net.Conn (SimConn)", "Backend/Session (SimBackend)", "clock (testing/synctest fake clock)", "SMTP client (raw driver)"},
 		Assumptions: []string{"go-smtp is compiled with go1.26.8 for the simulation; the baseline suite uses go1.23.5", "the reference unstuffer follows RFC 5321 4.5.2 with CRLF-only line ends"},
-		Required:    []string{"segment_boundary_inside_CRLF_dot", "dotCR_or_CRCRLF", "stuffed_dot_line", "short_read"},
+		Required:    []string{"segment_boundary_inside_CRLF_dot", "dotCR_or_CRCRLF", "stuffed_dot_line", "short_read", "client_pauses_longer_than_WriteTimeout_inside_message"},
 		QuickRuns:   150000, ThoroughRuns: 4000000,
 	})
 }
